@@ -74,6 +74,13 @@ def context_specs():
     # both disabled hashers
     out.append({"name": "unix+django", "schemes": ["sha256_crypt", "unix_disabled", "django_disabled"], "marker": None})
     out.append({"name": "django+unix", "schemes": ["sha256_crypt", "django_disabled", "unix_disabled"], "marker": None})
+    # a scheme that needs a context keyword (user=) next to the disabled hasher: the login code cannot know whether the
+    # stored value is a hash or a marker, so it passes user= on EVERY call; built directly and derived (copy / update /
+    # load) from a configuration that had no such scheme
+    for d in DISABLED:
+        for derive in (None, "copy", "update", "load"):
+            out.append({"name": f"{d}+postgres_md5" + (f":derived_by_{derive}" if derive else ""), "schemes": ["sha256_crypt", "postgres_md5", d],
+                        "marker": None, "kw": {"user": "joe"}, "derive": derive})
     return out
 
 
@@ -110,6 +117,17 @@ def make_context(spec):
         kw["sha256_crypt__rounds"] = 1000
     if spec.get("marker") is not None:
         kw["unix_disabled__marker"] = spec["marker"]
+    derive = spec.get("derive")
+    if derive:
+        # first a configuration without the keyword-taking scheme, then the real one on top
+        base = CryptContext(schemes=[x for x in spec["schemes"] if x != "postgres_md5"], **kw)
+        if derive == "copy":
+            return base.copy(schemes=list(spec["schemes"]))
+        if derive == "update":
+            base.update(schemes=list(spec["schemes"]))
+            return base
+        base.load(dict(kw, schemes=list(spec["schemes"])))
+        return base
     return CryptContext(schemes=list(spec["schemes"]), **kw)
 
 
@@ -133,6 +151,7 @@ _PREFIX = {
     "sha256_crypt": re.compile(r"^\$5\$"),
     "md5_crypt": re.compile(r"^\$1\$"),
     "mysql41": re.compile(r"^\*[0-9A-Fa-f]{40}$"),
+    "postgres_md5": re.compile(r"^md5[0-9a-f]{32}$"),
     "plaintext": re.compile(r"^", re.S),
 }
 
@@ -282,9 +301,10 @@ def check_disabled_observations(w, tag):
         out.append((f"C18|{comp}|is_enabled:{sc}:not_false", f"{tag}: is_enabled({s!r}) = {r[1]!r}; the value must be recognised as disabled"))
     for pk in PASSWORDS:
         p = password(w.spec, w, pk)
-        r = _call(lambda: ctx.verify(p, s))
+        ckw = w.spec.get("kw") or {}
+        r = _call(lambda: ctx.verify(p, s, **ckw))
         if r[0] == "exc":
-            out.append((f"C18|{comp}|verify:{sc}:raises:{_exc(r[1])}", f"{tag}: verify({p!r}, {s!r}) raised {r[1]!r}, expected False"))
+            out.append((f"C18|{comp}|verify:{sc}:raises:{_exc(r[1])}", f"{tag}: verify({p!r}, {s!r}{', **' + repr(ckw) if ckw else ''}) raised {r[1]!r}, expected False"))
         elif r[1] is not False:
             out.append((f"C18|{comp}|verify:{sc}:{pk}:accepted", f"{tag}: verify({p!r}, {s!r}) = {r[1]!r}: a disabled value verified"))
     return out
@@ -406,14 +426,15 @@ def _step(w, ev):
                 out.append((f"C18|{comp}|is_enabled:{osc}:not_false", f"is_enabled({s!r}) = {r[1]!r} for a disabled value"))
         return out
     if name in ("verify", "vau"):
+        ckw = spec.get("kw") or {}
         pk = ev[1]
         p = password(spec, w, pk)
         if kind == "none":
             if name == "verify":
-                res, counts = counted_none_verify(w, lambda: ctx.verify(p, None))
+                res, counts = counted_none_verify(w, lambda: ctx.verify(p, None, **ckw))
                 want = False
             else:
-                res, counts = counted_none_verify(w, lambda: ctx.verify_and_update(p, None))
+                res, counts = counted_none_verify(w, lambda: ctx.verify_and_update(p, None, **ckw))
                 want = (False, None)
             first = "first" if w.ndummy == 0 else "later"
             w.ndummy = min(2, w.ndummy + 1)
@@ -429,7 +450,7 @@ def _step(w, ev):
                                 f"{api}({p!r}, None) ({first} call on this context, default scheme {ctx.default_scheme()}) ran the default scheme's verify() "
                                 f"{n} times (dummy_verify() {counts['dummy']} times); exactly one dummy verification is required"))
             return out
-        r = _call(lambda: ctx.verify(p, sarg) if name == "verify" else ctx.verify_and_update(p, sarg))
+        r = _call(lambda: ctx.verify(p, sarg, **ckw) if name == "verify" else ctx.verify_and_update(p, sarg, **ckw))
         if kind == "disabled":
             want = False if name == "verify" else (False, None)
             api = "verify" if name == "verify" else "verify_and_update"
